@@ -29,3 +29,17 @@ Example C04_aliasing_would_break :
   let s' := update s 0 {| o_y := [0]; o_x := Some [2] |} in
   ~ holds s' stored [0] [1].
 Proof. cbv. intro H. discriminate. Qed.
+
+From Coq Require Import ZArith.
+From MM Require Import lib.Values model.Heap model.Elig model.SearchParams model.SearchDefs model.Search gen.Gen_HeapDict gen.Gen_Exhaustive proofs.ExhaustiveBridge.
+(* stated on the Gallina regenerated on this run from exhaustive_search itself (gen/Gen_Exhaustive.v) *)
+(* every design stored by the translated code carries the series of exactly its own groups (its diagnostics
+   object is a deep copy taken after the control series was installed) and the score of those groups *)
+Theorem C04_translated_exhaustive_search_designs_own_their_diagnostics :
+  forall (V K : Type) (O : vops V) (ltk : K -> K -> bool) (es : list elig) (par : spar V)
+         (shareS optB : set -> V) (bud : set -> set -> V) (score0 : set -> set -> K) (replace_inv : K -> V -> K) d,
+    In d (dd_get (gen_exhaustive_search O ltk (assignments_of es) par shareS optB bud score0 replace_inv) 0%Z) ->
+    snd d = snd (fst d) /\
+    fst (fst d) = stored_key O par bud score0 replace_inv (fst (snd (fst d))) (snd (snd (fst d))).
+Proof. intros. eapply gen_exhaustive_designs_own_their_diag; eassumption. Qed.
+Print Assumptions C04_translated_exhaustive_search_designs_own_their_diagnostics.
